@@ -123,6 +123,7 @@ fn json_obs(o: &Obs) -> serde_json::Value {
 }
 
 struct Driver {
+    case_id: u64,
     eng: DhtCoreEngine,
     strict: bool,
     ops: Vec<Op>,
@@ -152,12 +153,32 @@ impl Driver {
             Op::ReqFindNode(k, c) => {
                 sum.count("req_find_node");
                 let w = DhtRequestWrapper { id: "r".into(), message: DhtMessage::FindNode { target: DhtKey::from_bytes(*k), count: *c as usize } };
-                match self.eng.handle_request(w).await.response { DhtResponse::FindNodeReply { nodes, .. } => nodes_obs(nodes), _ => Obs::Err }
+                match self.eng.handle_request(w).await.response {
+                    DhtResponse::FindNodeReply { nodes, .. } => {
+                        // the protocol cap stated by the property, checked here as well so that a concrete
+                        // input is reported even when the regenerated constants no longer let the model compile
+                        if nodes.len() > 20 {
+                            sum.violation(self.case_id, "FindNode reply exceeds the protocol cap of 20 nodes", &[],
+                                json!({"requested_count": c.to_string(), "reply_len": nodes.len(), "after_ops": self.ops.len()}));
+                        }
+                        nodes_obs(nodes)
+                    }
+                    _ => Obs::Err,
+                }
             }
             Op::ReqFindValue(k) => {
                 sum.count("req_find_value");
                 let w = DhtRequestWrapper { id: "r".into(), message: DhtMessage::FindValue { key: DhtKey::from_bytes(*k) } };
-                match self.eng.handle_request(w).await.response { DhtResponse::FindValueReply { value: None, nodes } => nodes_obs(nodes), _ => Obs::Err }
+                match self.eng.handle_request(w).await.response {
+                    DhtResponse::FindValueReply { value: None, nodes } => {
+                        if nodes.len() > 8 {
+                            sum.violation(self.case_id, "FindValue reply exceeds K = 8 nodes", &[],
+                                json!({"reply_len": nodes.len(), "after_ops": self.ops.len()}));
+                        }
+                        nodes_obs(nodes)
+                    }
+                    _ => Obs::Err,
+                }
             }
         };
         // shadow (guidance only)
@@ -202,7 +223,7 @@ fn pick_count(rng: &mut Rng, size: u64) -> u64 {
     }
 }
 
-async fn gen_case(rng: &mut Rng, sum: &mut Summary, thorough: bool) -> (Id, Vec<Op>, Vec<Obs>, &'static str) {
+async fn gen_case(case_id: u64, rng: &mut Rng, sum: &mut Summary, thorough: bool) -> (Id, Vec<Op>, Vec<Obs>, &'static str) {
     let local: Id = match rng.below(8) { 0 => [0u8; 32], 1 => [0xFFu8; 32], 2 => { let mut l = [0u8; 32]; l[31] = 1; l } _ => rand_id(rng) };
     let strict = rng.chance(1, 12);
     let eng = if strict { DhtCoreEngine::new(NodeId::from_bytes(local)).expect("engine") } else {
@@ -225,7 +246,7 @@ async fn gen_case(rng: &mut Rng, sum: &mut Summary, thorough: bool) -> (Id, Vec<
     // a small per-case key set (each key is then asked with several counts; also keeps the number of
     // distinct 256-bit literals per case low)
     let case_keys: Vec<(Id, &'static str)> = (0..10).map(|_| pick_key(rng, &local, &hot, &pool)).collect();
-    let mut d = Driver { eng, strict, ops: vec![], obs: vec![], listed: vec![] };
+    let mut d = Driver { case_id, eng, strict, ops: vec![], obs: vec![], listed: vec![] };
     let mut next_pl: u64 = 1;
     // fill phase (half of the cases): drive some populated buckets to capacity-1 / capacity / capacity+1 attempts
     if rng.chance(1, 2) {
@@ -319,7 +340,7 @@ fn main() {
     let mut seen: HashSet<u64> = HashSet::new();
     for id in 0..ncases {
         let mut r2 = rng.fork();
-        let (local, ops, obs, kind) = rt.block_on(gen_case(&mut r2, &mut sum, args.thorough()));
+        let (local, ops, obs, kind) = rt.block_on(gen_case(id, &mut r2, &mut sum, args.thorough()));
         let mut nm = Names::default();
         let body = format!("({}, {}, {})", nm.n(&local),
             coq_list(ops.iter().map(|o| coq_op(&mut nm, o)).collect::<Vec<_>>()),
